@@ -99,14 +99,31 @@ def get_parent_of_type(typ: str | type[T], obj: Any) -> T | None:
         obj (model object): Python model object which is the start of the
             search process.
     """
-    if not isinstance(typ, str):
-        typ = typ.__name__
+    is_of_type = _type_selector(typ)
 
     while hasattr(obj, "parent"):
         obj = obj.parent
-        if obj.__class__.__name__ == typ:
+        if is_of_type(obj):
             return obj
     return None
+
+
+def _type_selector(typ):
+    """
+    Returns a predicate telling whether an object is of the type `typ` (a
+    class name or a class). A class of a meta-model is told apart from a
+    same-named class of another (imported) grammar by its qualified name.
+    """
+    if isinstance(typ, str):
+        return lambda x: x.__class__.__name__ == typ
+    name = typ.__name__
+    fqn = getattr(typ, "_tx_fqn", None)
+    if fqn is None:
+        return lambda x: x.__class__.__name__ == name
+    return lambda x: (
+        x.__class__.__name__ == name
+        and getattr(x.__class__, "_tx_fqn", fqn) == fqn
+    )
 
 
 def get_children(
@@ -189,11 +206,8 @@ def get_children_of_type(
             traversed.
     """
 
-    if not isinstance(typ, str):
-        typ = typ.__name__
-
     return get_children(
-        lambda x: x.__class__.__name__ == typ,
+        _type_selector(typ),
         root,
         children_first=children_first,
         should_follow=should_follow,
